@@ -161,6 +161,14 @@ def _context_problems():
                 "in_if": ("{% if true %}{% set a, b, _p = 1, 2, 3 %}{% endif %}", ["a", "b"]), "in_loop": ("{% for i in [1] %}{% set a, b, _p = 1, 2, 3 %}{% endfor %}", []),
                 "in_block": ("{% block x %}{% set a, b, _p = 1, 2, 3 %}{% endblock %}", []), "setblock": ("{% set a %}x{% endset %}{% set _p %}y{% endset %}", ["a"]),
                 "macros": ("{% macro pub() %}x{% endmacro %}{% macro _priv() %}y{% endmacro %}", ["pub"]),
+                # a top-level if/elif/else branch is still the top level (soft frame): macros and assignments in it are exported
+                "macro_if": ("{% if true %}{% macro pub() %}x{% endmacro %}{% macro _priv() %}y{% endmacro %}{% set a = 1 %}{% endif %}", ["a", "pub"]),
+                "macro_elif": ("{% if false %}{% elif true %}{% macro pub() %}x{% endmacro %}{% set b = 1 %}{% endif %}", ["b", "pub"]),
+                "macro_else": ("{% if false %}{% else %}{% macro pub() %}x{% endmacro %}{% macro _priv() %}y{% endmacro %}{% endif %}", ["pub"]),
+                "macro_if_if": ("{% if true %}{% if true %}{% macro pub() %}x{% endmacro %}{% endif %}{% endif %}", ["pub"]),
+                "macro_loop": ("{% for i in [1] %}{% macro pub() %}x{% endmacro %}{% endfor %}", []),
+                "macro_block": ("{% block x %}{% macro pub() %}x{% endmacro %}{% endblock %}", []),
+                "macro_in_macro": ("{% macro pub() %}{% macro c() %}x{% endmacro %}{{ c() }}{% endmacro %}", ["pub"]),
                 "upper": ("{% set A, _p = 1, 2 %}", ["A"]), "upper3": ("{% set _q, B, _p = 1, 2, 3 %}", ["B"]), "mixed": ("{% set A, _p, b = 1, 2, 3 %}", ["A", "b"])}
         e4 = _env({k: v[0] for k, v in mods.items()}, is_async)
         cands = ["A", "B", "a", "b", "c", "pub", "_p", "_q", "_priv", "i"]
@@ -1678,7 +1686,67 @@ class ExportsTask(Task):
         return res
 
 
-EMIT_TASKS = EMIT_TASKS + [ExportsTask(ns) for ns in EXPORT_NAME_SETS]
+def configure_macro(I):
+    """macro_body / macro_def are used through their contracts (C06.emit.*): markers in the stream, arguments recorded"""
+    def macro_body(I_, st, args, kwargs, node):
+        fr = st.alloc(HObj(C.Frame, path="macro_frame"))
+        ref = st.alloc(HObj(C.MacroRef, path="macro_ref"))
+        st.trace.append(Event("call", "macro_body", args[1:], kwargs, (fr, ref)))
+        return [(s, (fr, ref)) for s, _ in I_.call_method(st, args[0], "writeline", ["__macro_body__()"], {}, node)]
+
+    def macro_def(I_, st, args, kwargs, node):
+        st.trace.append(Event("call", "macro_def", args[1:], kwargs, None))
+        return I_.call_method(st, args[0], "write", ["__macro_def__"], {}, node)
+
+    I.specs["CodeGenerator.macro_body"] = macro_body
+    I.specs["CodeGenerator.macro_def"] = macro_def
+
+
+def macro_export_pred(sc, tree, ph, txt):
+    """C05.emit.macro_export: a macro is stored in context.vars and (unless its name starts with "_") added to context.exported_vars
+    exactly when frame.toplevel holds - independently of frame.rootlevel (the branches of a top-level {% if %} are soft frames:
+    toplevel kept, rootlevel cleared); below the top level only the local name is bound"""
+    if sc.outcome == "raise":
+        return [f"visit_Macro raises {sc.value!r}"]
+    top = decide(sc, TOP)
+    if top is None:
+        return [f"whether the macro is exported must be decided by frame.toplevel alone; this path decides {[str(c) for c in sc.pc][:4]} instead"]
+    name = sc.st.get(sc.node).fields["name"]
+    private = decide(sc, z3.PrefixOf(z3.StringVal("_"), name.t))
+    body = list(tree.body)
+    fails = []
+    mb, md = [e for e in sc.st.trace if e.kind == "call" and e.name == "macro_body"], [e for e in sc.st.trace if e.kind == "call" and e.name == "macro_def"]
+    if len(mb) != 1 or len(md) != 1 or mb[0].args[0] != sc.node or tuple(md[0].args) != (mb[0].result[1], mb[0].result[0]):
+        fails.append("macro_def must be given the macro reference and frame that macro_body returned for this node")
+    if not (body and isinstance(body[0], ast.Expr) and isinstance(body[0].value, ast.Call) and is_name(body[0].value.func, "__macro_body__")):
+        return fails + [f"the macro function must be emitted first: {txt!r}"]
+    body = body[1:]
+    a = body[-1] if body else None
+    if not (isinstance(a, ast.Assign) and is_name(a.value, "__macro_def__")):
+        return fails + [f"the macro object must be assigned last: {txt!r}"]
+    pre = body[:-1]
+    local_ok = ident_refers_to(sc, a.targets[-1], ph, name)
+    if top:
+        if not (len(a.targets) == 2 and is_ctx_vars_item(a.targets[0], ph, "node.name") and local_ok):
+            fails.append(f"a top-level macro must be bound to context.vars[name] and to its local: {ast.unparse(a)[:100]}")
+        if private is None:
+            return fails + ["path does not decide whether the macro name is private"]
+        adds = [s.value for s in pre if isinstance(s, ast.Expr) and isinstance(s.value, ast.Call) and emit.call_name(s.value) == "context.exported_vars.add"]
+        if len(adds) != len(pre):
+            fails.append(f"unexpected statements: {txt!r}")
+        if private and adds:
+            fails.append("a macro whose name starts with an underscore must not be exported")
+        if not private and not (len(adds) == 1 and len(adds[0].args) == 1 and is_repr_of(adds[0].args[0], ph, "node.name")):
+            fails.append(f"a public top-level macro must be added to context.exported_vars: {txt!r}")
+    else:
+        if pre or len(a.targets) != 1 or not local_ok or "context" in {n.id for n in ast.walk(tree) if isinstance(n, ast.Name)}:
+            fails.append(f"a macro below the top level is bound to its local name only: {txt!r}")
+    return fails
+
+
+EMIT_TASKS = EMIT_TASKS + [ExportsTask(ns) for ns in EXPORT_NAME_SETS] + [
+    EmitTask("C05", "C05.emit.macro_export", "jinja2.compiler:CodeGenerator.visit_Macro", N.Macro, macro_export_pred, mode="stmts", buffers=(None, "t_buf"),
+             replay_fn=native_context, configure=configure_macro, min_paths=6)]
 
 TASKS = RUNTIME_TASKS + EMIT_TASKS
 
